@@ -162,10 +162,19 @@ def silf(spec):
     s=be16(ng-1,0,0)+u8(np_,0,nsub,np_,0xFF,0, 2,2, 0,1,2,3,0, 0)
     s+=be16(0)+u8(spec.get('user',0),0,1+spec.get('dir',0),0, 0,0,0, 0, 0, 0)+be16(0)
     pre+=s
-    classes=spec['classes']; ncls=len(classes)
+    classes=spec['classes']; ncls=len(classes); nlin=spec.get('nlinear',ncls)
+    # classes[0:nlin] linear, classes[nlin:] lookup (sorted by glyph, index = position in the ordered list)
     off0=4+4*(ncls+1); offs=[off0]; data=b''
-    for c in classes: data+=be16(*c); offs.append(off0+len(data))
-    cm=be16(ncls,ncls)+be32(*offs)+data
+    for ci,c in enumerate(classes):
+        if ci<nlin: data+=be16(*c)
+        else:
+            n=len(c); sr=1
+            while sr*2<=n: sr*=2
+            es=sr.bit_length()-1
+            lie=spec.get('lie',{}).get(ci,0)
+            data+=be16(n+lie,sr,es,n-sr+lie)+b''.join(be16(g,i) for g,i in sorted((g,i) for i,g in enumerate(c)))
+        offs.append(off0+len(data))
+    cm=be16(ncls,nlin)+be32(*offs)+data
     after=be16(0,0,0,0)+cm
     pstart=len(pre)+4*(np_+1)+len(after)
     pb=[]; cur=pstart; offsets=[cur]
